@@ -29,7 +29,7 @@ use rustc_middle::mir::{
     self, AggregateKind, BasicBlock, Body, Operand, Place, PlaceElem, Rvalue, StatementKind,
     TerminatorKind, UnwindAction,
 };
-use rustc_middle::ty::print::{with_crate_prefix, with_no_trimmed_paths};
+use rustc_middle::ty::print::{with_crate_prefix, with_no_trimmed_paths, with_no_visible_paths};
 use rustc_middle::ty::{self, GenericArgsRef, Instance, Ty, TyCtxt, TypingEnv};
 use rustc_span::Span;
 use rustc_trait_selection::infer::InferCtxtExt;
@@ -158,7 +158,16 @@ impl<'tcx> Cx<'tcx> {
     }
     /// Path of a definition without generic arguments.
     fn path(&self, d: DefId) -> String {
-        let t = with_crate_prefix!(with_no_trimmed_paths!(self.tcx.def_path_str(d)));
+        // Items of std are named by their visible path (std::vec::Vec); everything else by its
+        // definition path, so that `shred::system::SystemData` has one name whether it is seen
+        // from inside shred or through the re-export `shred::SystemData`.
+        let cname = self.tcx.crate_name(d.krate);
+        let std_like = matches!(cname.as_str(), "std" | "core" | "alloc");
+        let t = if std_like || d.is_local() {
+            with_crate_prefix!(with_no_trimmed_paths!(self.tcx.def_path_str(d)))
+        } else {
+            with_no_visible_paths!(with_no_trimmed_paths!(self.tcx.def_path_str(d)))
+        };
         fix_crate(&t, &self.krate)
     }
     /// Stable unique key of a definition: crate name + verbose def path.
